@@ -34,7 +34,12 @@ FLOORS = {}
 
 
 def tasks(tier):
-    return [("force balance", "run_balance", {}), ("moment balance", "run_moment", {}), ("loads", "run_loads", {}), ("pressure", "run_pressure", {}), ("mass", "run_mass", {})]
+    ts = [("force balance", "run_balance", {}), ("moment balance", "run_moment", {}), ("loads", "run_loads", {}), ("pressure", "run_pressure", {}), ("mass", "run_mass", {})]
+    # balance "for any deformed state" includes every later state of one body: what it assembles there is what a fresh body assembles
+    for cfg in ("NeoHooke(bulk)", "Volumetric", "NeoHooke(mu,bulk)"):
+        ts.append(("re-assembly %s" % cfg, "run_included", dict(modname="c01", fname="run_reassembly", kwargs=dict(cfg=cfg), oid="C14.O1",
+                                                              why="force and moment balance are shown for the stress of the current state; a body that carries stress over from an earlier evaluation loses them")))
+    return ts
 
 
 def impose_partition_of_unity(ra):
@@ -234,6 +239,31 @@ def run_mass(col):
     tot3 = sum((P(M3[d * a, d * b]) for a in range(np_) for b in range(np_)), ZERO)
     col.add("C14.O6", "SolidBody mass with a changed density", "every assembly carries the density in force at that call: mass(density=rho2) and, after body.density = rho3, mass()",
             is_zero(tot2 - rho2 * vol) and is_zero(tot3 - rho3 * vol), "mechanics/_solidbody.py SolidBody._mass: totals %s ; %s" % (ring.fmt(tot2, 3), ring.fmt(tot3, 3)))
+    # every body class x field kind: total mass per direction == density * (revolved) volume
+    from .c02 import radius
+    for bname, bmod in (("SolidBody", "_solidbody"), ("SolidBodyNearlyIncompressible", "_solidbody_incompressible")):
+        for kind in ("PlaneStrain", "Axisymmetric"):
+            def chk(bname=bname, bmod=bmod, kind=kind):
+                fck, unk, (rak, rbk), dk, tdk = _fields(it, kind, nq=1)
+                kw = dict(umat=OpaqueHyper("Wm", dim=3), field=fck, density=rho)
+                if bname.endswith("Incompressible"):
+                    kw["bulk"] = sym("bulk", True)
+                b = it.call(it.get("felupe.mechanics.%s:%s" % (bmod, bname)), [], kw)
+                Mk = micro.dense(it.call(it.getattr(it.getattr(b, "assemble"), "mass"), [], {}))
+                if kind == "Axisymmetric":
+                    R = radius(rak)
+                    volk = sum((2 * ring.pi() * R[q, c] * rak.dV[q, c] for q in range(rak.dV.shape[0]) for c in range(rak.dV.shape[1])), ZERO)
+                else:
+                    volk = sum((rak.dV[q, c] for q in range(rak.dV.shape[0]) for c in range(rak.dV.shape[1])), ZERO)
+                npk = rak.mesh.npoints
+                badk = []
+                for i in range(dk):
+                    for k in range(dk):
+                        tot = sum((P(Mk[dk * a + i, dk * b_ + k]) for a in range(npk) for b_ in range(npk)), ZERO)
+                        if not is_zero(tot - (rho * volk if i == k else ZERO)):
+                            badk.append((i, k))
+                return not badk and Mk.shape == (npk * dk, npk * dk), "mechanics/%s.py %s._mass: components %s" % (bmod, bname, badk)
+            col.check("C14.O6", "%s[%s] mass total" % (bname, kind), "the mass matrix carries density * volume per direction (volume of revolution, weight 2 pi R, when axisymmetric)", chk)
     col.add("C14.O6", "SolidBody mass symmetric", "symmetric (Gram matrix of the shape functions, hence positive semi-definite)", all(is_zero(P(M[i, j]) - P(M[j, i])) for i in range(M.shape[0]) for j in range(i)))
     # multi-point constraint forces are self-equilibrated
     k = sym("kpen", True)
@@ -250,3 +280,9 @@ def run_mass(col):
         col.add("C14.O7", "MultiPointConstraint equilibrium skip=%s" % (skip,), "constraint forces sum to zero per component; no force on a skipped component", not bad and not skipped,
                 "mechanics/_multipoint.py MultiPointConstraint._vector: unbalanced components %s, forces on skipped components %s" % (bad, skipped))
     finish_info(col, it)
+
+
+def run_included(col, modname, fname, kwargs, oid, why, select_oid=None):
+    from ..common import include
+
+    include(col, modname, fname, kwargs, oid, why, select_oid=select_oid)
